@@ -411,6 +411,8 @@ def refused_next_to_live_scenarios(seed, quick):
                    call(3, op="CreateSub", name=S1, topic=T2, ack=10),
                    call(3, op="CreateSub", name=S1, topic=TP, ack=10),
                    call(3, op="CreateSub", name=S2, topic="projects/p1/topics/none", ack=10),
+                   call(3, op="CreateSub", name="projects/p2/subscriptions/s3", topic=T1, ack=10),
+                   call(3, op="CreateSub", name="projects/p1/subscriptions/s4", topic=TP, ack=10, push="http://127.0.0.1:9/x"),
                    call(3, op="DeleteTopic", name="projects/p1/topics/none"),
                    call(3, op="DeleteSub", name="projects/p1/subscriptions/none"),
                    call(3, op="Publish", topic="projects/p1/topics/none", msgs=[{"p": "lost"}]),
@@ -427,7 +429,8 @@ def refused_next_to_live_scenarios(seed, quick):
         steps += refused[r:] + refused[:r]
         steps += [call(2, op="GetSub", name=S1), call(2, op="GetSub", name=S2), call(2, op="GetTopic", name=T1),
                   call(2, op="ListTopicSubs", topic=T1, size=0, token=""), call(2, op="ListTopicSubs", topic=T2, size=0, token=""),
-                  call(2, op="ListSubs", project="projects/p1", size=0, token=""),
+                  call(2, op="ListSubs", project="projects/p1", size=0, token=""), call(2, op="ListSubs", project="projects/p2", size=0, token=""),
+                  call(2, op="GetSub", name="projects/p2/subscriptions/s3"), call(2, op="GetSub", name="projects/p1/subscriptions/s4"),
                   call(2, op="Pull", sub=S1, max=10, ri=True), call(2, op="Pull", sub=S2, max=10, ri=True),
                   call(2, op="Publish", topic=T1, msgs=[{"p": "r%d-d" % k}]),
                   {"do": "advance", "ms": 9000 + 10000 * (k % 2)}, call(2, op="Pull", sub=S1, max=10, ri=True),
@@ -526,6 +529,24 @@ def ack_deadline_scenarios(seed, quick):
                  {"do": "advance", "ms": d * 1000 + 1500}, call(2, op="Pull", sub=S1, max=10, ri=True),
                  {"do": "drain", "c": 9}]
         out.append(scn("ackdl-%d" % a, steps, seed=seed + i, phase=(i * 37) % 100))
+    return out
+
+
+def zero_limit_scenarios(seed, quick):
+    """Pulls and streams whose batch limit is zero as a 16-bit value, followed by ordinary ones at other
+    instants: every delivery still gets an ack id of its own and a lease of its own."""
+    out = []
+    for k, z in enumerate((0, 65536, -2147483648) if quick else (0, 65536, 131072, -2147483648, 65537)):
+        steps = [call(1, op="CreateTopic", name=T1), call(1, op="CreateSub", name=S1, topic=T1, ack=20),
+                 call(1, op="Publish", topic=T1, msgs=[{"p": "z%d-%d" % (k, j)} for j in range(4)]),
+                 call(2, op="Pull", sub=S1, max=z, ri=True), {"do": "advance", "ms": 3000},
+                 call(2, op="Pull", sub=S1, max=1, ri=True), {"do": "advance", "ms": 3000},
+                 {"do": "sopen", "h": "s", "c": 3, "sub": S1, "max": 0 if k % 2 == 0 else 1}, {"do": "settle"}, {"do": "sabandon", "h": "s"},
+                 call(2, op="Pull", sub=S1, max=z, ri=True),
+                 {"do": "advance", "ms": 15000}, call(2, op="Pull", sub=S1, max=10, ri=True),
+                 {"do": "advance", "ms": 4000}, call(2, op="Pull", sub=S1, max=10, ri=True),
+                 {"do": "drain", "c": 9}]
+        out.append(scn("zero-limit-%d" % k, steps, seed=seed * 100 + k, phase=(k * 17) % 100))
     return out
 
 
@@ -664,7 +685,8 @@ def plan_c03(prop, tier, seed, t0):
                 MaxOps=6)
     return core_check(prop, tier, seed, t0, over, explore=[("data", 48, 2000), ("consumers", 64, 3000)], caps=(16, 1, 2),
                       extra_scenarios=lambda quick, sd: cancel_scenarios(sd, kinds={"Pull", "Ack", "ModAck", "ModAck30"}, quick=quick)
-                      + stream_ctrl_scenarios(sd, quick) + twins_scenarios(sd, quick) + stream_life_scenarios(sd, quick),
+                      + stream_ctrl_scenarios(sd, quick) + twins_scenarios(sd, quick) + stream_life_scenarios(sd, quick)
+                      + zero_limit_scenarios(sd, quick),
                       thorough={"mc": dict(MaxOps=7, MaxMsgs=3)})
 
 
@@ -728,7 +750,8 @@ def plan_c04(prop, tier, seed, t0):
     phases = tuple(range(0, 100, 7)) + (99, 1)
     return core_check(prop, tier, seed, t0, over, explore=[("data", 32, 1000)], phases=phases,
                       extra_scenarios=lambda quick, sd: deadline_probe_scenarios(sd, quick) + ack_deadline_scenarios(sd, quick)
-                      + orphan_scenarios(sd, quick) + twins_scenarios(sd, quick) + idle_scenarios(sd, quick),
+                      + orphan_scenarios(sd, quick) + twins_scenarios(sd, quick) + idle_scenarios(sd, quick)
+                      + cancel_scenarios(sd, kinds={"Pull"}, quick=quick) + zero_limit_scenarios(sd, quick),
                       adv_extra=(0, 101, 1, 99), thorough={"mc": dict(MaxOps=7, MaxMsgs=3, MaxNow=8)})
 
 
@@ -862,7 +885,8 @@ def plan_c11(prop, tier, seed, t0):
     return core_check(prop, tier, seed, t0, over, explore=[("churn", 64, 3000), ("mt:churnrace", 300, 20000), ("mt:cdrace", 300, 20000)],
                       extra_scenarios=lambda quick, sd: cancel_scenarios(sd, kinds={"DeleteSub", "DeleteTopic", "CreateSub"}, quick=quick)
                       + inflight_delete_scenarios(sd, quick) + inflight_topic_delete_scenarios(sd, quick)
-                      + pinned_topic_scenarios(sd, quick) + orphan_scenarios(sd, quick) + listing_walk_scenarios(sd, quick),
+                      + pinned_topic_scenarios(sd, quick) + orphan_scenarios(sd, quick) + listing_walk_scenarios(sd, quick)
+                      + refused_next_to_live_scenarios(sd, quick),
                       thorough={"mc": dict(MaxOps=7)}, turns=True)
 
 
@@ -1051,6 +1075,16 @@ def c12_scenarios(n_seeds, seed):
             steps += [{"do": "swait", "h": "s"}, {"do": "wait", "h": "bp"}, {"do": "waitall"},
                       call(9, op="GetSub", name=S1), call(9, op="ListTopicSubs", topic=T1, size=0, token="")]
             out.append(scn("c12-H-%d" % k, steps, seed=sd, cap=(1, 2, 16)[(k // 4) % 3]))
+        # I: the subscription has outlived its topic when it is deleted: its consumers are released all the same
+        if k < 8:
+            steps = pre + [{"do": "sopen", "h": "s", "c": 2, "sub": S1, "max": 10},
+                           start("bp", 3, op="Pull", sub=S1, max=1, ri=False), {"do": "settle"},
+                           call(1, op="DeleteTopic", name=T1), {"do": "advance", "ms": 40 * (k % 3)}]
+            if k % 4 == 1:
+                steps.append(call(1, op="CreateTopic", name=T1))
+            steps += [call(1, op="DeleteSub", name=S1), {"do": "swait", "h": "s"}, {"do": "wait", "h": "bp"},
+                      call(1, op="GetSub", name=S1)]
+            out.append(scn("c12-I-%d" % k, steps, seed=sd, cap=cap))
         # D: requests in flight while the deletion is processed.
         out.append(scn("c12-D-%d" % k, pre + [
             call(4, op="Pull", sub=S1, max=1, ri=True),
@@ -1257,8 +1291,9 @@ def cancel_scenarios(seed, kinds=None, quick=True):
                                  call(2, op="Pull", sub=S1, max=1, ri=True)]
                         if sat:
                             # saturate the mailbox the request goes to: cap requests in the box, one parked
+                            # (for DeleteSub every other time the TOPIC's: its second step goes there)
                             for j in range(cap + 1):
-                                if target[kind] == "sub":
+                                if target[kind] == "sub" and not (kind == "DeleteSub" and (polls + yields) % 2 == 0):
                                     steps.append({"do": "hold", "h": "f%d" % j, "c": 20 + j, "call": dict(op="GetSub", name=S1)})
                                 else:
                                     steps.append({"do": "hold", "h": "f%d" % j, "c": 20 + j,
@@ -1280,6 +1315,27 @@ def cancel_scenarios(seed, kinds=None, quick=True):
                                   {"do": "drain", "c": 9}]
                         out.append(scn("cx-%s-p%d-y%d-%s-cap%d" % (kind, polls, yields, "sat" if sat else "free", cap), steps,
                                        seed=seed * 1000 + n, cap=cap))
+    # DeleteSubscription abandoned after it reached the subscription's actor, while the TOPIC's mailbox
+    # is full and its actor does not move (gated): the second step of the deletion (the remove request
+    # to the topic) cannot be sent yet when the caller goes away
+    if not kinds or "DeleteSub" in kinds:
+        for cap in (1, 2):
+            for yields in ((2, 5) if quick else (1, 2, 3, 5, 8)):
+                n += 1
+                steps = [call(1, op="CreateTopic", name=T1), call(1, op="CreateSub", name=S1, topic=T1, ack=10),
+                         call(1, op="CreateSub", name=S2, topic=T1, ack=10),
+                         call(1, op="Publish", topic=T1, msgs=[{"p": "a"}, {"p": "b"}]),
+                         {"do": "gate", "name": "t.turn", "turns": 0}]
+                for j in range(cap + 1):
+                    steps.append({"do": "hold", "h": "f%d" % j, "c": 20 + j, "call": dict(op="ListTopicSubs", topic=T1, size=0, token="")})
+                steps += [{"do": "polldrop", "c": 3, "call": calls["DeleteSub"], "polls": 1, "yields": yields},
+                          {"do": "gate", "name": "t.turn", "turns": -1}, {"do": "release"}, {"do": "settle"}, {"do": "quiet"},
+                          call(4, op="ListTopicSubs", topic=T1, size=0, token=""), call(4, op="GetSub", name=S1),
+                          call(4, op="Publish", topic=T1, msgs=[{"p": "probe"}]), call(4, op="Pull", sub=S2, max=10, ri=True), {"do": "quiet"},
+                          call(4, op="DeleteSub", name=S1), call(4, op="CreateSub", name=S1, topic=T1, ack=10),
+                          call(4, op="Publish", topic=T1, msgs=[{"p": "probe2"}]), call(4, op="Pull", sub=S1, max=10, ri=True),
+                          {"do": "drain", "c": 9}]
+                out.append(scn("cx-DeleteSub-topicgated-y%d-cap%d" % (yields, cap), steps, seed=seed * 1000 + n, cap=cap))
     return out
 
 
